@@ -112,12 +112,19 @@ func finish(s *simrt.Sim, w *world.World, st Stats, deadlockIsViolation bool) Ou
 		out.Stats.Faults = w.Faults.Fired
 	}
 	if f := s.Failure(); f != nil {
+		prop := "?"
+		if w != nil {
+			prop = w.Prop
+		}
 		switch {
+		case w == nil:
+			// engines without a world translate runtime failures themselves
+			out.Infra = f
 		case f.Kind == simrt.FailPanic:
-			v := world.Violation{Prop: w.Prop, Rule: "panic-in-goroutine", Signature: w.Prop + "/goroutine-panic", Msg: fmt.Sprintf("a goroutine of the SDK panicked (process crash): %s\n%s", f.Msg, f.Stack)}
+			v := world.Violation{Prop: prop, Rule: "panic-in-goroutine", Signature: prop + "/goroutine-panic", Msg: fmt.Sprintf("a goroutine of the SDK panicked (process crash): %s\n%s", f.Msg, f.Stack)}
 			out.Viols = append(out.Viols, v)
 		case f.Kind == simrt.FailDeadlock && deadlockIsViolation:
-			v := world.Violation{Prop: w.Prop, Rule: "deadlock", Signature: w.Prop + "/deadlock", Msg: "all tasks blocked: " + f.Msg}
+			v := world.Violation{Prop: prop, Rule: "deadlock", Signature: prop + "/deadlock", Msg: "all tasks blocked: " + f.Msg}
 			out.Viols = append(out.Viols, v)
 		default:
 			out.Infra = f
